@@ -192,3 +192,96 @@ def parseCfg (line : String) : Option Cfg :=
 
 end Wire
 end MiniMoka
+
+namespace MiniMoka
+namespace Wire
+
+/-! ### parsing observations back (to judge implementation traces with the oracles) -/
+
+def splitNonEmpty (s : String) (sep : String) : List String :=
+  (s.splitOn sep).filter (fun x => !x.isEmpty)
+
+def parseEntryView (s : String) : Option EntryView :=
+  match s.splitOn ":" with
+  | [k, v, w, la, lm, flags] => do
+    let fl := flags.toList
+    some { key := ← k.toNat?, val := ← v.toNat?, weight := ← w.toNat?,
+           la := ← parseOptNat la, lm := ← parseOptNat lm,
+           aoOk := fl.getD 0 '-' == 'a', woOk := fl.getD 1 '-' == 'w',
+           admitted := fl.getD 2 '-' == 'A', dirty := fl.getD 3 '-' == 'D' }
+  | _ => none
+
+def parseNodeView (s : String) : Option NodeView :=
+  let (body, cur) := if s.endsWith "!" then ((s.dropEnd 1).toString, false) else (s, true)
+  match body.splitOn "@" with
+  | [k, ts] => do some { key := ← k.toNat?, ts := ← parseOptNat ts, current := cur }
+  | _ => none
+
+def parsePair (s : String) : Option (Nat × Nat) :=
+  match s.splitOn ":" with
+  | [a, b] => do some (← a.toNat?, ← b.toNat?)
+  | _ => none
+
+def hexVal (s : String) : Option UInt64 :=
+  s.toList.foldlM (fun (acc : Nat) (c : Char) =>
+    if c.isDigit then some (acc * 16 + (c.toNat - '0'.toNat))
+    else if 'a' ≤ c ∧ c ≤ 'f' then some (acc * 16 + (c.toNat - 'a'.toNat + 10))
+    else none) 0 |>.map Nat.toUInt64
+
+def parseSnapField (sn : Snap) (kv : String) : Option Snap :=
+  match kv.splitOn "=" with
+  | ["ec", v] => v.toNat?.map fun x => { sn with ec := x }
+  | ["ws", v] => v.toNat?.map fun x => { sn with ws := x }
+  | ["now", v] => v.toNat?.map fun x => { sn with now := x }
+  | ["va", v] => (parseOptNat v).map fun x => { sn with va := x }
+  | ["rq", v] => v.toNat?.map fun x => { sn with rq := x }
+  | ["wq", v] => v.toNat?.map fun x => { sn with wq := x }
+  | ["hk", v] =>
+    match v.splitOn "," with
+    | [r, a] => do some { sn with hkRunning := r == "1", hkAfter := ← a.toNat? }
+    | _ => none
+  | ["map", v] => ((splitNonEmpty v ",").mapM parseEntryView).map fun x => { sn with entries := x }
+  | ["prob", v] => ((splitNonEmpty v ",").mapM parseNodeView).map fun x => { sn with prob := x }
+  | ["wo", v] => ((splitNonEmpty v ",").mapM parseNodeView).map fun x => { sn with wo := x }
+  | ["skt", v] =>
+    match v.splitOn "," with
+    | [on, size, sample, len, crc] => do
+      some { sn with skOn := on == "on", skSize := ← size.toNat?, skSample := ← sample.toNat?,
+                     skLen := ← len.toNat?, skCrc := ← hexVal crc }
+    | _ => none
+  | ["freq", v] => ((splitNonEmpty v ",").mapM parsePair).map fun x => { sn with freqs := x }
+  | _ => none
+
+def emptySnap : Snap :=
+  { ec := 0, ws := 0, entries := [], prob := [], wo := [], skOn := false, skSize := 0,
+    skSample := 0, skLen := 0, skCrc := 0, freqs := [] }
+
+def parseFault (s : String) : Fault :=
+  match s with
+  | "overflow" => .overflow
+  | "unreachable" => .unreachable
+  | "expect" => .expect
+  | "notmember" => .notMember
+  | "uaf" => .useAfterFree
+  | "hang" => .hang
+  | "builder-ttl" => .builderTtl
+  | "builder-tti" => .builderTti
+  | _ => .expect
+
+def parseObs (s : String) : Option Obs :=
+  match s.trimAscii.toString.splitOn " " with
+  | ["ok"] => some .ok
+  | ["none"] => some (.val none)
+  | ["some", v] => v.toNat?.map fun x => .val (some x)
+  | ["true"] => some (.bool true)
+  | ["false"] => some (.bool false)
+  | ["iter"] => some (.iter [])
+  | ["iter", l] => ((splitNonEmpty l ",").mapM parsePair).map .iter
+  | ["freq", f] => f.toNat?.map .freq
+  | ["panic", f] => some (.panic (parseFault f))
+  | ["bad-op"] => some .badOp
+  | "snap" :: fields => (fields.foldlM parseSnapField emptySnap).map .snap
+  | _ => none
+
+end Wire
+end MiniMoka
